@@ -122,7 +122,9 @@ std::string detail();
 long live_tracked_blocks();                         // number of tracked heap blocks not yet freed
 long tracked_allocs();
 long live_blocks_by_threads();                        // live tracked blocks that were allocated by logical threads (not by the main thread)                              // number of tracked allocations so far
-void set_solo(int tid, long budget);                // from now on only `tid` is scheduled (C16)
+void set_solo(int tid, long budget);
+int solo_thread();                                 // 0 if not in solo mode
+[[noreturn]] void end_execution();                  // stop the whole execution now (solo runs: the other threads stay stopped mid-operation)                // from now on only `tid` is scheduled (C16)
 bool is_freed(const void* p);                       // p lies in a quarantined block
 uint64_t step_count();
 const Result& partial_result();                      // schedule/choices recorded so far (for aborted executions)
